@@ -37,10 +37,25 @@ def one(case, model, rep):
         for i in range(size):
             plan["%s|m%02d" % (cmds[probe_cmd], i)] = {
                 "barrier": {"dir": repo.barrier_root + "/" + cmds[probe_cmd], "n": size, "timeout_ms": case.get("timeout_ms", 15000)}}
+            if case.get("chatty"):
+                # the member is still printing after the first flush tick and has written more than a
+                # pipe buffer before it waits for the others
+                blk = (("m%02d " % i) + "x" * 120 + "\n").encode() * 256      # ~32 KiB of lines
+                plan["%s|m%02d" % (cmds[probe_cmd], i)]["pre"] = [[0, 1, blk.hex(), 1]] + [[100, 1, blk.hex(), 1] for _ in range(12)]
         repo.set_plan(plan)
+        tail = None
+        if case.get("listener"):
+            import logtail
+            tail = logtail.start_tail(repo, {"stdout": True, "stderr": True, "targets": [], "commands": []})
+            rep.count("with_listener")
         t0 = time.time()
-        rc, j, out, err = repo.mono("run", "-c", *cmds, timeout=60)
+        rc, j, out, err = repo.mono("run", "-c", *cmds, timeout=90)
+        if tail is not None:
+            tail.kill()
+            tail.wait()
         rep.evaluations += 1
+        if case.get("chatty"):
+            rep.count("chatty_members")
         rep.count("size_%s" % ("2_8" if size <= 8 else "9_16" if size <= 16 else "17_32" if size <= 32 else "33_64"))
         rep.count("position_group_%d" % min(pre_groups, 3))
         rep.count("probe_command_%d" % probe_cmd)
@@ -97,6 +112,12 @@ def main():
             cases.append({"size": s, "pre_groups": 1, "commands": 1, "probe_command": 0})
             cases.append({"size": s, "pre_groups": 2, "commands": 2, "probe_command": 1})
             cases.append({"size": s, "pre_groups": 0, "commands": 3, "probe_command": 2})
+        # with a `log tail` listener attached for the whole run, quiet and chatty members
+        for s in ([2, 7, 24] if args["tier"] == "quick" else [2, 3, 7, 16, 24, 40]):
+            cases.append({"size": s, "pre_groups": 1, "commands": 1, "probe_command": 0, "listener": True})
+        for s in ([2, 4] if args["tier"] == "quick" else [2, 3, 4, 8]):
+            cases.append({"size": s, "pre_groups": 0, "commands": 1, "probe_command": 0, "listener": True, "chatty": True})
+            cases.append({"size": s, "pre_groups": 0, "commands": 1, "probe_command": 0, "chatty": True})
         n = (150 if args["tier"] == "thorough" else 12) * args["budget"]
         for _ in range(n):
             nc = rng.range(1, 3)
@@ -104,8 +125,7 @@ def main():
         if args["tier"] == "thorough":
             for s in range(2, 65):
                 cases.append({"size": s, "pre_groups": 0, "commands": 1, "probe_command": 0})
-    with ThreadPoolExecutor(max_workers=4) as ex:
-        list(ex.map(lambda c: one(c, model, rep), cases))
+    scen.run_cases(lambda c: one(c, model, rep), cases, rep, 4)
     scen.finish(args, rep, t0, model)
 
 
